@@ -175,6 +175,9 @@ def Geo.layerCols (g : Geo) (l : Lay) : List Col := g.cols.filter (fun c => l.bo
 def Geo.underPairs (g : Geo) : List (Lay × Col) :=
   (g.lays.drop 1).flatMap (fun l => (g.layerCols l).map (fun c => (l, c)))
 
+/-- name of the atmosphere block over a column -/
+def atmEntry (cv : Conv) (l0 : Lay) (c : Col) : Except Exc Str := blockName cv l0.name c.name
+
 /-- atmosphere part of `setup_block_name_index` -/
 def Geo.atmNames (g : Geo) : Except Exc (List Str) :=
   match g.lays with
@@ -184,21 +187,27 @@ def Geo.atmNames (g : Geo) : Except Exc (List Str) :=
       match blockName g.conv l0.name (atmColName g.conv) with
       | .ok n => .ok [n]
       | .error e => .error e
-    else if g.atm = 1 then mapE (fun c => blockName g.conv l0.name c.name) g.cols
+    else if g.atm = 1 then mapE (atmEntry g.conv l0) g.cols
     else .ok []
+
+/-- one step of the loop of `block_name_list_dmplex`: the name, filed under 8 or 6 nodes -/
+def dmplexEntry (cv : Conv) (p : Lay × Col) : Except Exc (Bool × Str) :=
+  match blockName cv p.1.name p.2.name with
+  | .error e => .error e
+  | .ok n => if p.2.numNodes = 4 then .ok (true, n)
+             else if p.2.numNodes = 3 then .ok (false, n)
+             else .error .generic
+
+/-- one step of the loop of `block_name_list_layer_column` -/
+def underEntry (cv : Conv) (p : Lay × Col) : Except Exc Str := blockName cv p.1.name p.2.name
 
 /-- `block_name_list_layer_column` / `block_name_list_dmplex` -/
 def Geo.underNames (g : Geo) : Except Exc (List Str) :=
   if g.dmplex then
-    match mapE (fun (p : Lay × Col) =>
-        match blockName g.conv p.1.name p.2.name with
-        | .error e => .error e
-        | .ok n => if p.2.numNodes = 4 then .ok (true, n)
-                   else if p.2.numNodes = 3 then .ok (false, n)
-                   else .error .generic) g.underPairs with
+    match mapE (dmplexEntry g.conv) g.underPairs with
     | .error e => .error e
     | .ok l => .ok (((l.filter (fun x => x.1)).map (·.2)) ++ ((l.filter (fun x => !x.1)).map (·.2)))
-  else mapE (fun (p : Lay × Col) => blockName g.conv p.1.name p.2.name) g.underPairs
+  else mapE (underEntry g.conv) g.underPairs
 
 /-- `block_name_list` as `setup_block_name_index` leaves it -/
 def Geo.blockNameList (g : Geo) : Except Exc (List Str) :=
@@ -246,15 +255,35 @@ def nearestFirst (pts : List (Rat × Rat)) (p : Rat × Rat) : Nat :=
 
 def Col.centre (c : Col) : Rat × Rat := (c.cx, c.cy)
 
+/-- the specification `cKDTree.query` is assumed to meet: on a non-empty point set it
+    returns the index of a point at minimal (squared) distance from the query point -/
+def IsNearest (q : List (Rat × Rat) → Rat × Rat → Nat) : Prop :=
+  ∀ (pts : List (Rat × Rat)) (p : Rat × Rat), pts ≠ [] →
+    ∃ y, pts[q pts p]? = some y ∧ ∀ x ∈ pts, sqDist y p ≤ sqDist x p
+
+/-- `C` is a column of `self` whose centre is nearest to the point `p` -/
+def NearestCol (self : Geo) (p : Rat × Rat) (C : Col) : Prop :=
+  C ∈ self.cols ∧ ∀ X ∈ self.cols, sqDist C.centre p ≤ sqDist X.centre p
+
+/-- `S` is one of the layers `srest` whose centre is nearest to the elevation `z` -/
+def NearestLay (srest : List Lay) (z : Rat) (S : Lay) : Prop :=
+  S ∈ srest ∧ ∀ X ∈ srest, absQ (S.centre - z) ≤ absQ (X.centre - z)
+
+/-- the column's first layer below ground: the first of `layerlist[1:]` whose bottom is
+    below the column's surface -/
+def Geo.firstBelow (g : Geo) (c : Col) : Option Lay := (g.lays.drop 1).find? (fun l => l.bottom < c.surface)
+
+/-- `closest_col(col)`: `self.columnlist[kdtree.query(col.centre)[1]]`, as a (key, value) pair -/
+def colPair (q : List (Rat × Rat) → Rat × Rat → Nat) (self : Geo) (c : Col) : Except Exc (Str × Str) :=
+  match self.cols[q (self.cols.map Col.centre) c.centre]? with
+  | some s => .ok (c.name, s.name)
+  | none => .error .indexError
+
 /-- `column_mapping(geo)`; `q` is `kdtree.query` (index part) -/
 def columnMapping (q : List (Rat × Rat) → Rat × Rat → Nat) (self geo : Geo) : Except Exc (Dict Str) :=
   let init : List (Str × Str) :=
     if self.atm = 0 ∧ geo.atm = 0 then [(atmColName geo.conv, atmColName self.conv)] else []
-  let centres := self.cols.map Col.centre
-  match mapE (fun (c : Col) =>
-      match self.cols[q centres c.centre]? with
-      | some s => .ok (c.name, s.name)
-      | none => .error .indexError) geo.cols with
+  match mapE (colPair q self) geo.cols with
   | .error e => .error e
   | .ok ps => .ok (dictOf (init ++ ps))
 
@@ -267,14 +296,17 @@ def nearestLayer (srest : List Lay) (l : Lay) : Except Exc Lay :=
     | some s => .ok s
     | none => .error .indexError
 
+/-- (layer name, name of the nearest source layer) -/
+def layPair (srest : List Lay) (l : Lay) : Except Exc (Str × Str) :=
+  match nearestLayer srest l with
+  | .ok s => .ok (l.name, s.name)
+  | .error e => .error e
+
 /-- `layer_mapping(geo)` -/
 def layerMapping (self geo : Geo) : Except Exc (Dict Str) :=
   match geo.lays, self.lays with
   | g0 :: grest, s0 :: srest =>
-    match mapE (fun (l : Lay) =>
-        match nearestLayer srest l with
-        | .ok s => .ok (l.name, s.name)
-        | .error e => .error e) grest with
+    match mapE (layPair srest) grest with
     | .error e => .error e
     | .ok ps => .ok (dictOf ((g0.name, s0.name) :: ps))
   | _, _ => .error .indexError
@@ -441,6 +473,15 @@ def transferAtm (src : Incon) (sgeo geo : Geo) (colmapping : Dict Str) : Except 
       | .ok ps => .ok (dictOf ps)
   else .ok []
 
+/-- `self[blk] = copy(sourceinc[mapping[blk]])` as a (key, value) pair -/
+def incUnder (src : Incon) (mapping : Dict Str) (blk : Str) : Except Exc (Str × IncVal) :=
+  match dget mapping blk with
+  | .error e => .error e
+  | .ok sb =>
+    match dget src sb with
+    | .error e => .error e
+    | .ok v => .ok (blk, v)
+
 /-- `t2incon.transfer_from(sourceinc, sourcegeo, geo, mapping, colmapping)`;
     the result is the new contents of `self` -/
 def transferFrom (q : List (Rat × Rat) → Rat × Rat → Nat) (src : Incon) (sgeo geo : Geo)
@@ -458,26 +499,23 @@ def transferFrom (q : List (Rat × Rat) → Rat × Rat → Nat) (src : Incon) (s
         match geo.numAtmBlocks with
         | .error e => .error e
         | .ok na =>
-          match mapE (fun (blk : Str) =>
-              match dget mapping blk with
-              | .error e => .error e
-              | .ok sb =>
-                match dget src sb with
-                | .error e => .error e
-                | .ok v => .ok (blk, v)) (names.drop na) with
+          match mapE (incUnder src mapping) (names.drop na) with
           | .error e => .error e
           | .ok ps => .ok (ps.foldl (fun d p => dset d p.1 p.2) atmPart)
 
 /-! ### t2data: rock types, generators, print block, incon dict -/
 
+/-- `source.grid.block[mapping[blk.name]].rocktype.name` -/
+def rockOf (sgridRock : Dict Str) (mapping : Dict Str) (b : Str) : Except Exc Str :=
+  match dget mapping b with
+  | .error e => .error e
+  | .ok sb => dget sgridRock sb
+
 /-- `transfer_rocktypes_from`: rock type name of every target block, in `blocklist`
     order.  `sgridRock` is `source.grid.block[name].rocktype.name`. -/
 def transferRocktypes (sgridRock : Dict Str) (mapping : Dict Str) (tblocks : List Str) :
     Except Exc (List Str) :=
-  mapE (fun (b : Str) =>
-    match dget mapping b with
-    | .error e => .error e
-    | .ok sb => dget sgridRock sb) tblocks
+  mapE (rockOf sgridRock mapping) tblocks
 
 /-- the attributes of a `t2generator` that `transfer_generators_from` reads or writes -/
 structure Gen where
@@ -696,11 +734,13 @@ def layersBelow (g : Geo) (c : Col) : Nat := ((g.lays.drop 1).filter (fun l => l
 
 /-- `GeoInv` for the geometry mapped FROM (`self` of `block_mapping`): at least one column
     and one underground layer, well-formed names, layer bottoms descending, and every
-    column's stored `num_layers` equal to the number of layers below its surface, ≥ 1 -/
+    column's stored `num_layers` equal to the number of layers below its surface, ≥ 1
+    (and DMPlex block order only with 3/4-node columns, else `block_name_list` does not exist) -/
 def srcOK (g : Geo) : Bool :=
   decide (g.atm ≤ 2) && !g.cols.isEmpty && decide (2 ≤ g.lays.length) && namesOK g &&
   bottomsDesc (g.lays.drop 1) &&
-  g.cols.all (fun c => c.numLayers == layersBelow g c && decide (1 ≤ c.numLayers))
+  g.cols.all (fun c => c.numLayers == layersBelow g c && decide (1 ≤ c.numLayers)) &&
+  (!g.dmplex || g.cols.all (fun c => c.numNodes == 4 || c.numNodes == 3))
 
 /-- `GeoInv` for the geometry mapped ONTO (`geo`): an atmosphere layer exists, names are
     well formed and survive `fix_blockname` unchanged, DMPlex order only with 3/4-node columns -/
